@@ -378,6 +378,8 @@ def run_cases(cx, cases):
                 lines.append("%s path newpath %s %s" % (i, hexs(p), "~" if v is None else hexs(v)))
                 todo.append(("newpath0", c, i, "newpath %s - %s %s" % (c.sser, hexs(p), hexs(v or b"")), p))
         if not c.string_only:
+            for d in set(x.split(":")[0].split("(")[0] + (":" + x.split(":")[2] if x.startswith("t:") else "") for x in c.types.split("~")):
+                cx.dist["ttypes:" + d] += 1
             # typed keys: the printed path, every order of the key predicates of its multi-key steps, and mutations that respell
             # predicate values (sign, zeros, blanks, bit order, identityref prefix, Number token), reorder / drop / repeat / rename keys
             probes = []
